@@ -1,20 +1,18 @@
-"""Gen/Tables.v: declarative tables read from the imported live code of the
-tree under test (DESIGN 3.2).  Each section is produced by a function that
-imports the relevant module, inspects objects, and prints Gallina text."""
+"""Gen/*.v: declarative tables read from the imported live code of the tree
+under test (DESIGN 3.2).  Every module harness/vcheck/tabs/<name>.py defines
+render() -> Gallina text, written to coq/Gen/<Name>.v (first letter upper-cased)
+on every run, before the proof layer is built."""
+import importlib
+import os
+import pkgutil
 
-SECTIONS = []
+HEADER = "(* GENERATED on every run by harness/vcheck/tabs/%s.py from the imported code of the tree under test. Do not edit. *)\n"
 
 
-def section(f):
-    SECTIONS.append(f)
-    return f
-
-
-def render():
-    out = ["(* GENERATED on every run by harness/vcheck/tables.py from the imported code. Do not edit. *)",
-           "From Coq Require Import List String.", "Import ListNotations.", "Open Scope string_scope.", ""]
-    for f in SECTIONS:
-        out.append("(* ---- %s ---- *)" % f.__name__)
-        out.append(f())
-        out.append("")
-    return "\n".join(out)
+def render_all():
+    from . import tabs
+    out = {}
+    for m in sorted(pkgutil.iter_modules(tabs.__path__), key=lambda m: m.name):
+        mod = importlib.import_module("vcheck.tabs." + m.name)
+        out[m.name[0].upper() + m.name[1:]] = HEADER % m.name + mod.render()
+    return out
